@@ -575,5 +575,25 @@ fn gc_head_arm(store: &Store, Tracked(st): Tracked<&mut St>, context_id: Scru128
 }
 //@@ end
 
+// ---- the Remove arm of the collector (C08, C09): an expired frame is removed through Store::remove - the frame and BOTH its index
+// entries in one batch - and nothing else is touched
+//@@ slice file=src/store/mod.rs fn=spawn_gc_worker name=gc_remove_arm
+//@@ from: GCTask::Remove(id) => {
+//@@ through_close
+//@@ inner
+//@@ header
+fn gc_remove_arm(store: &Store, id: Scru128Id, Tracked(st): Tracked<&mut St>)
+    requires store_wf(store), stream_wf(old(st)),
+        old(st).parts.stream.contains_key(id_bytes(id)) ==> topic_bytes(&stored_frame(old(st), id)).len() <= MAX_TOPIC(),
+    ensures
+        final(st).parts == old(st).parts || (old(st).parts.stream.contains_key(id_bytes(id))
+            && final(st).parts == apply_ops(old(st).parts, remove_ops(id, &stored_frame(old(st), id)))), //# store.gc_remove.whole_frame_or_nothing
+        no_storage_error(old(st), final(st)) && old(st).parts.stream.contains_key(id_bytes(id)) && nul_free(topic_bytes(&stored_frame(old(st), id)))
+            ==> final(st).parts == apply_ops(old(st).parts, remove_ops(id, &stored_frame(old(st), id))), //# store.gc_remove.removes_frame_and_both_index_entries
+{
+//@@ epilogue
+}
+//@@ end
+
 } // verus!
 fn main() {}
